@@ -162,4 +162,247 @@ PROPS = {
         trusted_base=LEAN_TB,
         assumptions=["as C03"],
     ),
+    "C01": dict(
+        level_text="Lean 4 theorems: compress_conforms (for every source, valid configuration, hash length, compression, metadata, both writers "
+                   "and ANY round-tripping codec - hence also the stored-size==source-size corner - the produced bytes are a conforming archive "
+                   "recording the true size and checksum), roundtrip (cloning them yields exactly the source, any seeds/prior output), "
+                   "stages_preserve_order (buffered(n) emits in order under every completion schedule; every stage uses buffered - read from the "
+                   "source), temp_file_complete (the CLI temp file is complete whatever the write-behind timing, given the flush found in the "
+                   "source). Tied to the code by CLI runs (bita compress -> bita clone -> bita info, file and pipe input, all kinds of sources "
+                   "incl. empty / 1 byte / duplicates), CLI archive == library archive == model archive (byte-exact digest), clone vs model.",
+        level_note="PARTIAL for schedules: order preservation of futures::buffered and tokio::fs::File's write-behind are modelled from their "
+                   "source/documentation, not verified; tied by the extracted combinator/flush facts and repeated perturbed runs (C12). Codec "
+                   "assumed to round-trip (CodecOK); size hypotheses: archive < 2^63 bytes, <= 2^32 chunks (indexes are stored as u32).",
+        technique="Lean 4 proof (writer invariants + proto round-trip + reader completeness, composed; order-preservation invariant of buffered) + CLI differential runs",
+        design_ref="DESIGN.md 5/C01",
+        module="Bita.Props.C01",
+        level="proof",
+        needs_bita=True,
+        required_theorems=["compress_conforms", "roundtrip", "stages_preserve_order", "temp_file_complete"],
+        suites=dict(quick=[("py", "c01_roundtrip")], thorough=[("py", "c01_roundtrip"), ("py", "c12_determinism")]),
+        rule="random sources (empty, 1 byte, zeros, constant, repetitive blocks, text, random; up to 20 kB) x random valid configs x hash "
+             "lengths x none/brotli levels x buffer counts x file/stdin; oracles: clone output == source, info reports size and Blake2 "
+             "checksum, temp file removed, CLI archive == library archive; model: archive digest (both writers) and clone result/output",
+        trusted_base=LEAN_TB + ["brotli (codec contract assumed)", "futures::buffered / tokio::fs::File semantics (Bita/Model/Schedule.lean)"],
+        assumptions=["valid configuration (OptsOK)", "codec round-trips and never compresses a non-empty chunk to nothing", "no full-hash collision among source chunks"],
+    ),
+    "C02": dict(
+        level_text="Lean 4 theorem seeds_irrelevant (= clone_sound): the archive opens and describes src; for every list of seed streams (any "
+                   "number, order, content), every prior output, in place or not, any chunk reader: success implies output == source, or a "
+                   "collision of the truncated hash with a genuine source chunk is exhibited; feeds_exact at the level of keyed chunks. Tied "
+                   "to the code by CLI clones with 0-4 seeds of 7 kinds (+ stdin), plain/in-place/block device, local/HTTP, hash lengths "
+                   "4..64: output == source, and result/output/fetched ranges compared with the model.",
+        level_note="Trusted: as C03/C09 (tiling, chunking); truncated-hash lookup modelled as equality of truncated keys (tied by the CLI runs "
+                   "with hash lengths 4 and 5 and by C03's index correspondence).",
+        technique="Lean 4 proof (reduction of byte-level clone to the tiling-level feed theorem, collision reduction) + CLI differential runs",
+        design_ref="DESIGN.md 5/C02",
+        module="Bita.Props.C02",
+        level="proof",
+        needs_bita=True,
+        required_theorems=["seeds_irrelevant", "feeds_exact"],
+        suites=dict(quick=[("py", "c02_seeds")], thorough=[("py", "c02_seeds")]),
+        rule="CLI clone scenarios: seeds from {unrelated, the source, edited copies, empty, same size other content, reordered halves}, "
+             "optional stdin seed, optional in-place prior (edited source or junk), block-device hook, local or scripted HTTP archive; "
+             "oracle: output == source; model: result, output digest, exact fetched ranges",
+        trusted_base=LEAN_TB,
+        assumptions=["the archive header is genuine (opens and describes the source)"],
+    ),
+    "C04": dict(
+        level_text="Lean 4 theorems: clone_sound_against_any_reader (genuine header, ARBITRARY bytes for every chunk request, any codec behaviour, "
+                   "any seeds: success implies output == source or a collision is exhibited), opened_header_is_self_consistent + header_tamper "
+                   "(an altered archive that keeps the size field and opens has an unchanged header region, or exhibits a collision, or also "
+                   "carries a recomputed checksum), pin_mismatch_refused + pinned_header_is_genuine (--verify-header, full byte comparison read "
+                   "from the source), verify_output_sound. Tied to the code by CLI clones of mutated archives (bit flips in header and payload, "
+                   "truncations, overwrites, payload swaps, trailing garbage; with seeds / --verify-output / --verify-header) and of misbehaving "
+                   "HTTP servers; result and output compared with the model.",
+        level_note="The header checksum is a hash, not a MAC: 'any change inside the header is rejected' is proved in the only form that is true "
+                   "(unchanged, or collision, or checksum rewritten consistently - excluded by the pin). Blake2 enters only through collision "
+                   "reductions. hash length >= 8 per the property; theorems hold for 1..64.",
+        technique="Lean 4 proof (verify-before-feed soundness, header self-consistency, collision reductions) + CLI mutation runs",
+        design_ref="DESIGN.md 5/C04",
+        module="Bita.Props.C04",
+        level="proof",
+        needs_bita=True,
+        required_theorems=["clone_sound_against_any_reader", "header_tamper", "pin_mismatch_refused", "pinned_header_is_genuine", "verify_output_sound"],
+        suites=dict(quick=[("py", "c04_corruption"), ("l1", "fmt")], thorough=[("py", "c04_corruption"), ("l1", "fmt")]),
+        rule="per archive (none/brotli, hash length 8/16/64): 120 sampled single-bit flips (every bit of tiny archives in thorough), "
+             "truncations at structural offsets, random overwrites, payload swap, trailing garbage, x {plain, seed, --verify-output, pinned}; "
+             "7 server misbehaviours; oracle: error or output == source, altered header never accepted; model: result + output digest",
+        trusted_base=LEAN_TB,
+        assumptions=["archives produced by compress; corruption after creation; an attacker able to rewrite the checksum is out of scope unless --verify-header is used"],
+    ),
+    "C05": dict(
+        level_text="Lean 4 theorems: rerun_completes (interrupt ANY clone run after any number of its writes and any byte prefix of the next: the "
+                   "in-place re-run with an honest reader succeeds and yields the source, or a collision is exhibited - an instance of "
+                   "clone_complete, which holds for every prior content, stated with the crash relation), rerun_completes_any_content (chains "
+                   "of interruptions), failed_write_not_success / no_fault_success (tokio write-behind file model: whichever write fails, the "
+                   "tail of clone_archive with the flush found in the source does not report success). Tied to the code by CLI runs under an "
+                   "LD_PRELOAD shim: SIGKILL at (write k, t bytes) for every k (thorough) / sampled k, double crashes, then --seed-output "
+                   "re-run == source; ENOSPC / torn write at first, middle, last writes must exit non-zero.",
+        level_note="Crash = process interruption with writes applied in order (the property's wording); power-loss reordering not modelled "
+                   "(irrelevant to T1, which holds for any content). tokio::fs::File's deferred error reporting is a model of a dependency "
+                   "(Bita/Model/Schedule.lean), tied by the fault-injection runs.",
+        technique="Lean 4 proof (in-place completeness for every prior content; invariant of the write-behind file model) + fault-injection runs",
+        design_ref="DESIGN.md 5/C05",
+        module="Bita.Props.C05",
+        level="proof",
+        needs_bita=True,
+        required_theorems=["rerun_completes", "rerun_completes_any_content", "failed_write_not_success", "no_fault_success"],
+        suites=dict(quick=[("py", "c05_crash")], thorough=[("py", "c05_crash")]),
+        rule="scenarios (plain / in-place, with/without seed file, none/brotli) x crash points (write index x tear offsets {0, size, random, 1, "
+             "size-1}) x optional second crash of the re-run; write faults fail/tear at first, middle, second-to-last, last write",
+        trusted_base=LEAN_TB + ["tokio::fs::File write-behind semantics (modelled from the tokio source)", "the LD_PRELOAD shim (harness/shim/iofault.c)"],
+        assumptions=["honest archive reader for the re-run; archive describes the source"],
+    ),
+    "C06": dict(
+        level_text="Lean 4 theorem fetch_exact: a successful clone has asked the reader for the pre-header, the rest of the header and then, in one "
+                   "read_chunks call, exactly the stored ranges of the descriptors (descriptor order, each once) whose key neither the scan of "
+                   "the prior output (when seed) nor of any seed found - or a collision is exhibited; the cursor fact (file_size rewinds) is "
+                   "read from the source. Tied to the code by CLI clones under strace (reads on the archive fd) and against a scripted HTTP "
+                   "server (Range log): exact fetched ranges compared with the model for regular files, block device (hook) and HTTP.",
+        level_note="The claim about the OS cursor of the block-device path rests on the extracted fact + CLI observation (the model scans the "
+                   "whole prior content). Transfer retries are C08.",
+        technique="Lean 4 proof (key-level characterisation of the clone index after reorder and seeds) + strace/Range-log correspondence",
+        design_ref="DESIGN.md 5/C06",
+        module="Bita.Props.C06",
+        level="proof",
+        needs_bita=True,
+        required_theorems=["fetch_exact", "scan_starts_at_zero_fact"],
+        suites=dict(quick=[("py", "c02_seeds")], thorough=[("py", "c02_seeds")]),
+        rule="as C02; compared: the exact list of fetched (offset,size) ranges beyond the header; oracles: no range twice, nothing fetched when "
+             "a seed is the source or the output already holds it (regular file and block device)",
+        trusted_base=LEAN_TB + ["strace"],
+        assumptions=["as C02"],
+    ),
+    "C11": dict(
+        level_text="Lean 4 theorems: header_layout, proto_roundtrip (decode(encode d) = d for every well-formed dictionary; encoder and decoder "
+                   "models are tied byte-/field-exactly to prost), writer_invariants (archive = header ++ stored chunks, ends at the last stored "
+                   "chunk, offsets back-to-back, stored <= source size, valid rebuild indexes summing to the source size, options verbatim), "
+                   "descriptors_unique_first_occurrence, reader_reports_verbatim, temp_file_complete. Tied to the code by archives of both real "
+                   "writers judged by an INDEPENDENT Python decoder written from header.rs' table and the .proto (vlib/pyfmt.py), by bita info, "
+                   "and by the prost encode/decode correspondence (random + wire-level crafted + mutated dictionaries).",
+        level_note="The independent decoder lives in the correspondence (Python), the theorems are about the model's encoder/decoder pair, each "
+                   "tied to prost separately. hinj: no two different source chunks with equal full hash.",
+        technique="Lean 4 proof (varint/field/message round-trips, fold invariants of the writer) + independent-decoder conformance runs",
+        design_ref="DESIGN.md 5/C11",
+        module="Bita.Props.C11",
+        level="proof",
+        needs_bita=True,
+        required_theorems=["header_layout", "proto_roundtrip", "writer_invariants", "descriptors_unique_first_occurrence", "reader_reports_verbatim"],
+        suites=dict(quick=[("py", "c11_conformance"), ("l1", "fmt")], thorough=[("py", "c11_conformance"), ("l1", "fmt")]),
+        rule="archives of both writers over random sources/configs/hash lengths/compression/metadata (incl. empty key, non-ASCII, long values): "
+             "Python conformance checklist on the raw bytes; prost vs model: encode-dict byte-exact, decode-dict field-exact on encodings, "
+             "crafted additions (unknown fields, groups, duplicates, unpacked, overlong varints, bad UTF-8) and mutations; header::build",
+        trusted_base=LEAN_TB + ["vlib/pyfmt.py (independent decoder)"],
+        assumptions=["valid configuration"],
+    ),
+    "C12": dict(
+        level_text="Lean 4 theorem archive_independent_of_schedule_and_delivery: with the read script, buffer count, both stage schedules and the "
+                   "temp-file timing as explicit arguments, the archive equals the sequential model createArchive - a function of source and "
+                   "options only (uses C09's delivery independence, buffered's order preservation, the temp-file flush). Tied to the code by "
+                   "repeated CLI runs per input with buffered-chunks in {1,2,3,8,64,..}, 1 or 16 tokio workers, taskset to one CPU, file vs pipe "
+                   "input, and the library writer under fragmented reads: all archives byte-identical (and equal to the model when uncompressed).",
+        level_note="PARTIAL for schedules: as C01 - futures::buffered and tokio's blocking pool are modelled, not verified; the perturbed runs are "
+                   "the tie. Hash-map iteration order plays no role in the writers (dedup by lookup only; metadata is a BTreeMap).",
+        technique="Lean 4 proof (composition of delivery independence, order preservation and flush) + repeated perturbed CLI runs",
+        design_ref="DESIGN.md 5/C12",
+        module="Bita.Props.C12",
+        level="proof",
+        needs_bita=True,
+        required_theorems=["archive_independent_of_schedule_and_delivery"],
+        suites=dict(quick=[("py", "c12_determinism")], thorough=[("py", "c12_determinism")]),
+        rule="per input 5 (8 thorough) CLI runs varying buffered-chunks, TOKIO_WORKER_THREADS, taskset, file/pipe + 1 library run with "
+             "fragmented reads; oracle: one distinct archive per input",
+        trusted_base=LEAN_TB + ["futures::buffered / tokio blocking pool (modelled)"],
+        assumptions=["valid configuration; stages run to completion"],
+    ),
+    "C14": dict(
+        level_text="Lean 4 theorems over an abstract POSIX file system, universally quantified: refused_invalid_archive, refused_pin_mismatch "
+                   "(no output created, nothing changed, only read-only opens), refused_output_exists, refused_small_device, "
+                   "compress_refused_output_exists - with the OpenOptions flag expressions and the order of the steps READ FROM THE SOURCE "
+                   "(facts_as_expected). Tied to the code by the whole table run through the CLI: {absent, regular short/long, block device "
+                   "big/small} x {none, -f, --seed-output} x {valid, corrupt header, not an archive, pin mismatch, pin prefix, pin ok} + compress "
+                   "rows; content, length, existence before/after and exit status; each row compared with the model's verdict.",
+        level_note="POSIX open semantics (O_CREAT|O_EXCL, O_TRUNC) are trusted; block device rows use the guarded is_block_dev hook.",
+        technique="Lean 4 proof (case analysis over the flow with extracted flag expressions) + exhaustive CLI table",
+        design_ref="DESIGN.md 5/C14",
+        module="Bita.Props.C14",
+        level="proof",
+        needs_bita=True,
+        required_theorems=["facts_as_expected", "refused_invalid_archive", "refused_pin_mismatch", "refused_output_exists", "refused_small_device", "compress_refused_output_exists"],
+        suites=dict(quick=[("py", "c14_refusals")], thorough=[("py", "c14_refusals")]),
+        rule="the full table (90 clone rows + 4 compress rows per repetition, random pre-existing content); oracle: refused => non-zero exit, "
+             "output byte-identical / still absent; proceeds => output == source (block device: prefix, length kept)",
+        trusted_base=LEAN_TB + ["POSIX open/ftruncate semantics", "the is_block_dev hook (cfg oll3_bita_verif)"],
+        assumptions=["unique paths in the file system; archive path != output path"],
+    ),
+    "C15": dict(
+        level_text="Lean 4 theorems about a model in which every Rust operation that can panic on untrusted input is an explicit branch: "
+                   "tryInit_total (any reader keeping the read_at contract: success or reported error, no panic/abort branch), "
+                   "accepted_archive_is_safe (banner arithmetic, source index, indexes/sizes/offsets/parameters of an accepted archive), "
+                   "scan_is_bounded (valid parameters: chunks >= 1 byte tile the input under any delivery), server_bytes_safe (ANY server bytes, "
+                   "any script: no underflow in the HTTP reader). Tied to the code by structure-aware mutation under a recomputed checksum "
+                   "through the library (catch_unwind; open + banner arithmetic + index + bounded seed scan) and through the CLI (info / clone "
+                   "/ clone --seed / clone --seed-output under a watchdog; exit 101/134/hang = violation), random bytes, bit flips, truncations, "
+                   "declared sizes up to 2^64, misbehaving servers.",
+        level_note="Panic-freedom OF THE MODEL; which operations can panic is the modeller's reading of the code, so the generators are the "
+                   "important half. Partial w.r.t. memory exhaustion and anything inside prost/brotli/reqwest. Accepted RollSum configs with "
+                   "window > max are outside Config.Valid (covered by the correspondence only). HttpReader::read_at buffers whatever body a "
+                   "server sends for a header read (not bounded by the request) - recorded in DESIGN.md.",
+        technique="Lean 4 proof (case analysis of the open path; reader invariants) + structure-aware mutation runs",
+        design_ref="DESIGN.md 5/C15",
+        module="Bita.Props.C15",
+        level="proof",
+        needs_bita=True,
+        required_theorems=["tryInit_total", "accepted_archive_is_safe", "scan_is_bounded", "server_bytes_safe"],
+        suites=dict(quick=[("l1", "fmt"), ("py", "c15_cli")], thorough=[("l1", "fmt"), ("py", "c15_cli")]),
+        rule="library: random/wild dictionaries under header::build, wire-level crafted dictionaries and declared-size/offset lies under a "
+             "recomputed checksum, bit flips, truncations, random bytes; CLI: 22 field mutations x 4 commands + 13 server scripts; "
+             "outcome classes compared with the model's tryInit/banner",
+        trusted_base=LEAN_TB,
+        assumptions=["read_at contract (exact size or error) - proved for both readers in C08"],
+    ),
+    "C16": dict(
+        level_text="Lean 4 theorems over the file-system model: clone_ops_confined / clone_fs_confined (every operation of a clone, in every mode, "
+                   "is a read-only open or concerns the output path; nothing removed; no other path changes), compress_leaves_only_archive "
+                   "(initial file system + exactly the archive, temp created/written/re-opened/removed), facts_as_expected (File::open for "
+                   "seeds and archive, no remove/rename/create-dir/copy call in clone_cmd.rs - read from the source). The statement about the "
+                   "real process is the strace observation in every mode (plain, seeds, stdin seed, in-place, +seeds, verify, pin, http, "
+                   "http+seed, force, block device; compress file/stdin/force): write-intent opens with their flags, unlink/rename/truncate, "
+                   "directory listings before/after - compared with the model's operation log.",
+        level_note="For this property the observation is the tie; the theorems add that no mode was forgotten in the model. Runtime opens "
+                   "(/proc, /sys, /etc) are read-only and are excluded by intent, never by name.",
+        technique="Lean 4 proof over an operation log + strace observation of every mode",
+        design_ref="DESIGN.md 5/C16",
+        module="Bita.Props.C16",
+        level="proof",
+        needs_bita=True,
+        required_theorems=["facts_as_expected", "clone_ops_confined", "clone_fs_confined", "compress_leaves_only_archive"],
+        suites=dict(quick=[("py", "c16_files")], thorough=[("py", "c16_files")]),
+        rule="11 clone modes + 3 compress modes per scenario under strace -f; set of (path, intent) pairs, open flags of the output and the "
+             "temp file, listings before/after",
+        trusted_base=LEAN_TB + ["strace"],
+        assumptions=["temp path not already present"],
+    ),
+    "C17": dict(
+        level_text="Lean 4 theorem conforming_archive_clones: Conforms says only that the bytes open (either magic, any decodable dictionary), that "
+                   "what opened describes src chunk by chunk, and that every descriptor's range holds stored bytes decoding to its chunk - "
+                   "nothing about the writer's layout; every such archive is cloned to exactly the source (any seeds/prior output) or a collision "
+                   "is exhibited; readers_exact_on_any_layout (C08). Tied to the code by archives from an INDEPENDENT Python encoder with the "
+                   "layout freedoms (legacy magic, slack after the header, stored chunks permuted / descending / padded, trailing bytes, unknown "
+                   "fields, shuffled field order, unpacked indexes, per-chunk raw-vs-brotli, hash lengths 4..64, zero chunks) cloned by the CLI "
+                   "locally and over HTTP, bita info compared with the encoder's inputs, and the model's clone.",
+        level_note="Conformance of the dictionary is defined through the protobuf decoder model (tied to prost by C11's correspondence).",
+        technique="Lean 4 proof (reader completeness from a layout-free conformance predicate) + independent-encoder runs",
+        design_ref="DESIGN.md 5/C17",
+        module="Bita.Props.C17",
+        level="proof",
+        needs_bita=True,
+        required_theorems=["conforming_archive_clones", "conforming_archive_reports", "readers_exact_on_any_layout"],
+        suites=dict(quick=[("py", "c17_conforming")], thorough=[("py", "c17_conforming")]),
+        rule="random sources cut arbitrarily (any cut is format-conforming), random valid parameters, independent encoder with random "
+             "freedoms; oracle: CLI clone (local, HTTP, with seed) == source, info lines == encoder inputs; model: clone result/output",
+        trusted_base=LEAN_TB + ["vlib/pyfmt.py (independent encoder)"],
+        assumptions=["no pin; block device large enough"],
+    ),
 }
